@@ -48,6 +48,9 @@ pub enum Fault {
     /// the run cannot even start: 0 blockchain dir missing, 1 index dir missing, 2 rejected range (--end <= --start),
     /// 3 dump folder missing, 4 index CURRENT names a manifest that does not exist, 5 dump folder path is a regular file
     Startup { kind: u8 },
+    /// --start above the tip (by 1 + beyond): nothing to process. Whatever the tool makes of it, exit status 0 must
+    /// still mean one final-named file per output and no *.tmp, and a failure must leave no final-named file
+    EmptyRange { beyond: u8 },
 }
 
 #[derive(Clone, Debug, Serialize, Deserialize)]
@@ -78,6 +81,7 @@ fn layout_for(nfiles: usize, nblocks: usize) -> LayoutSpec {
         ldb_reopens: 0,
         ldb_compact: true,
         ldb_history: false,
+        xor_link: 0,
     }
 }
 
@@ -218,6 +222,10 @@ pub fn check(c: &Case) -> Verdict {
             of.inject = Some(Inject { syscall: "write".into(), action: "error=ENOSPC".into(), when: *k as u64, paths, when_expr: None })
         }
         Fault::Kill { syscall, k } => of.inject = Some(Inject { syscall: syscall.clone(), action: "signal=KILL".into(), when: *k as u64, paths: tmp_paths(c.cb, &dump), when_expr: None }),
+        Fault::EmptyRange { beyond } => {
+            of.start = Some(built.tip() + 1 + *beyond as u64);
+            of.end = if c.stale_tmp { Some(built.tip() + 40 + *beyond as u64) } else { None };
+        }
         Fault::Startup { kind: 2 } => {
             // --end below or equal to --start is rejected by the option parser
             let st = s.max(1);
@@ -254,6 +262,23 @@ pub fn check(c: &Case) -> Verdict {
         }
         Ok(())
     };
+    if let Fault::EmptyRange { .. } = &c.fault {
+        let finals = out.final_files();
+        if out.ok() {
+            if !out.tmp_files().is_empty() {
+                return Verdict::Fail(format!("--start above the tip: exit status 0 but temporary files remain: {:?}", out.tmp_files()));
+            }
+            for stem in c.cb.stems() {
+                if !finals.iter().any(|n| n.starts_with(&format!("{}-", stem))) {
+                    return Verdict::Fail(format!("--start above the tip: exit status 0 but no final-named {} file exists (dump folder: {:?})", stem, out.files.keys().collect::<Vec<_>>()));
+                }
+            }
+        } else if !finals.is_empty() {
+            return Verdict::Fail(format!("--start above the tip: failed run left final-named files {:?}", finals));
+        }
+        let classes = vec![format!("cb={}", c.cb.cli()), "fault=empty-range".to_string(), format!("exit0={}", out.ok())];
+        return Verdict::Pass(Pass { nontrivial: true, key: key_of(c), classes, known: vec![], sub_evals: 2, sample: None, extra_keys: vec![] });
+    }
     // (a) exit 0 always implies complete output
     if out.ok() && !identical(&out) {
         return Verdict::Fail(format!("fault {:?}: exit status 0 but the dump folder is not the complete output of an undisturbed run: files {:?} (reference {:?}); {}", c.fault, out.files.iter().map(|(n, v)| (n.clone(), v.len())).collect::<Vec<_>>(), reference.files.iter().map(|(n, v)| (n.clone(), v.len())).collect::<Vec<_>>(), finals_identical(&out).err().unwrap_or_default()));
@@ -325,6 +350,7 @@ pub fn check(c: &Case) -> Verdict {
                 fired = false;
             }
         }
+        Fault::EmptyRange { .. } => unreachable!("handled above"),
         Fault::Startup { kind } => {
             if out.ok() {
                 return Verdict::Fail(format!("start-up failure kind {} (no output can have been produced), yet the run exited 0: {}", kind, out.describe()));
@@ -355,6 +381,7 @@ pub fn check(c: &Case) -> Verdict {
         Fault::Enospc { .. } => "enospc".into(),
         Fault::Kill { syscall, .. } => format!("kill@{}", syscall),
         Fault::Startup { kind } => format!("startup-{}", kind),
+        Fault::EmptyRange { .. } => "empty-range".into(),
     };
     let mut classes = vec![format!("cb={}", c.cb.cli()), format!("fault={}", kind), format!("fired={}", fired)];
     if max_size > 4_000_000 {
@@ -412,6 +439,10 @@ fn enumerated(seed: u64, tier: Tier) -> Vec<Case> {
             v.push(mk(Fault::Startup { kind }));
         }
         v.push(Case { stale_tmp: true, ..mk(Fault::Startup { kind: 2 }) });
+        for beyond in [0u8, 1, 200] {
+            v.push(mk(Fault::EmptyRange { beyond }));
+        }
+        v.push(Case { stale_tmp: true, ..mk(Fault::EmptyRange { beyond: 0 }) });
         for i in 0..nb {
             v.push(mk(Fault::FileRemoved { h: hsel(i) }));
             v.push(mk(Fault::FileEmptied { h: hsel(i) }));
@@ -492,6 +523,7 @@ fn random_strategy(tier: Tier) -> BS<Case> {
         2 => (1u32..10, proptest::option::weighted(0.5, 0u8..4)).prop_map(|(k, file)| Fault::Enospc { k, file }),
         4 => (proptest::sample::select(vec!["openat", "write", "rename", "close"]), 1u32..8).prop_map(|(s, k)| Fault::Kill { syscall: s.to_string(), k }),
         1 => (0u8..=5).prop_map(|kind| Fault::Startup { kind }),
+        1 => (0u8..=3).prop_map(|beyond| Fault::EmptyRange { beyond }),
     ];
     (gen::chain(&chain_cfg(tier)), 2u8..=4, proptest::sample::select(FILE_CALLBACKS.to_vec()), proptest::option::weighted(0.3, any::<u16>()), proptest::option::weighted(0.3, any::<u16>()), fault, proptest::bool::weighted(0.25)).prop_map(|(chain, nfiles, cb, start, end, fault, stale_tmp)| Case { chain, nfiles, cb, start, end, fault, stale_tmp }).boxed()
 }
